@@ -321,6 +321,10 @@ func (e *ExpressionAtom) Evaluate(dataContext IDataContext, memory *WorkingMemor
 		e.Value = val
 		e.ValueNode = e.ExpressionAtom.ValueNode
 		if e.Negated {
+			if elem := pkg.GetValueElem(e.Value); elem.IsValid() && elem.Kind() == reflect.Bool {
+				// a boolean behind a pointer or inside an interface value is a boolean to && and ||, so it is to !
+				e.Value = elem
+			}
 			if e.Value.Kind() == reflect.Bool {
 				e.Value = reflect.ValueOf(!e.Value.Bool())
 				e.ValueNode = model.NewGoValueNode(e.Value, fmt.Sprintf("!%s", e.GrlText))
